@@ -181,15 +181,15 @@ def check_call(key, fn, args, kwargs, strict_pre=True):
     except Exception as e:  # noqa: BLE001
         name = type(e).__name__
         ok = False
+        for exc, cond in may_conds.items():
+            if cond and any(t.__name__ == exc for t in type(e).__mro__):
+                ok = True
         for exc, cond in raise_conds.items():
             if any(t.__name__ == exc for t in type(e).__mro__):
                 if cond:
                     ok = True
-                else:
+                elif not ok:
                     raise ContractViolation(key, "raises-when-not-allowed", f"{exc} only when {c.raises[exc]}", f"got {name}: {e}") from e
-        for exc, cond in may_conds.items():
-            if cond and any(t.__name__ == exc for t in type(e).__mro__):
-                ok = True
         if not ok:
             raise ContractViolation(key, "unexpected-exception", name, str(e)) from e
         raise
